@@ -5,3 +5,5 @@ cd "$(dirname "$0")/engine"
 export GOFLAGS=-mod=mod GOPROXY=off GOSUMDB=off GOTOOLCHAIN=local
 mkdir -p ../bin
 go build -o ../bin/symgo ./cmd/symgo
+# engine self-test (native build vs interpreter on seeded vectors); informational, never fatal for setup
+(cd .. && ./check selftest 20 2>&1 | tail -2) || true
